@@ -425,7 +425,12 @@ func (db *RockDB) HDel(ts int64, key []byte, args ...[]byte) (int64, error) {
 		return 0, err
 	}
 	if keyInfo.Expired {
-		// an expired collection is dead: nothing to remove
+		// an expired collection is dead: nothing to remove (the fields are checked as for a missing hash)
+		for i := 0; i < len(args); i++ {
+			if err := common.CheckKeySubKey(keyInfo.VerKey, args[i]); err != nil {
+				return 0, err
+			}
+		}
 		return 0, nil
 	}
 	table := keyInfo.Table
